@@ -15,7 +15,7 @@ META = dict(
                 thorough='TRXD every length 0..520; forward path for 81 lengths; TRXC tails up to 4 octets, arbitrary datagrams up to 6; capture lengths 0..18'),
     stubs=['fake socket', 'logging', 'per-character symbolic text: bytes.decode (ASCII + definitely-invalid UTF-8), str.startswith/strip/split/==, int(str) grammar model', 'time.sleep', 'file proxy with symbolic read/seek sizes (case split)'],
     outside=['toolkit control datagrams containing octets 0xC2..0xF4 (possible valid multi-byte UTF-8 text)', 'trxcon: control replies longer than prefix + 3 (6) arbitrary octets; sscanf modelled for <= 9 digits', 'control datagrams longer than the enumerated tails', 'FAKE_TRXC_DELAY with a delay the OS sleep cannot represent (sleep is stubbed)', ],
-    assumptions=['after the malformed input the transceiver must still answer CMD SETTA <n> with RSP SETTA 0 <n> and apply it, and still queue a valid burst'],
+    assumptions=['after the malformed input the transceiver must still answer CMD SETTA <n> with RSP SETTA 0 <n> and apply it, and still queue a valid burst', 'after a hostile control command a valid burst of a tuned, running peer (frame and timeslot symbolic) goes through FakeTRX.handle_data_msg of this transceiver without raising and produces at most one datagram (a symbolic drop period left by the command is case-split when it has at most 25 values, otherwise this step is skipped)'],
     explanation='obligation everywhere: no exception escapes the socket/capture entry point; malformed data messages leave queue and state untouched; malformed control text is answered with a non-zero status or ignored (at most one reply, to the sender); a following valid command/burst is served correctly')
 
 INT_VERBS = ['RXTUNE', 'TXTUNE', 'MEASURE', 'SETFORMAT', 'SETPOWER', 'RFMUTE', 'SETTA', 'FAKE_TOA', 'FAKE_RSSI', 'FAKE_CI', 'FAKE_DROP', 'FAKE_TRXC_DELAY', 'SETFH']
@@ -159,6 +159,25 @@ def after_valid_cmd(ctx, trx, tag):
     ctx.check(tag + ':SETTA:applied', eq(trx.ta, n))
 
 
+def after_valid_burst(ctx, T, trx, tag):
+    """... and goes on serving bursts: a well-formed burst a tuned, running peer puts on the air afterwards reaches this transceiver's
+    burst path (simulation parameters set by the preceding command included) without raising"""
+    per = getattr(trx, 'burst_drop_period', 1)
+    if isinstance(per, core.SymInt):
+        # the drop period set by the preceding command divides the frame number: case split on its (few) values
+        if per.hi - per.lo > 24: return
+        for v in range(per.lo, per.hi + 1):
+            if bool(eq(per, v)): trx.burst_drop_period = v; break
+    src = mk_trx(ctx, T, 'S', 6700, ver=0); src.running = True; trx.running = True
+    src._tx_freq = trx._rx_freq = 935000000; src._rx_freq = trx._tx_freq = 890000000
+    m = T.data_msg.TxMsg(fn=ctx.int(tag + '.burst.fn', 0, HYPER - 1), tn=ctx.int(tag + '.burst.tn', 0, 7), ver=0)
+    m.pwr = 0; m.burst = mk_bytearray(ctx, [1, 0] * 74)
+    n0 = len(trx.data_if.sock.sent)
+    with ctx.no_raise(tag + ':valid-burst:no-exception'):
+        T.burst_fwd.BurstForwarder([src, trx]).forward_msg(src, m)
+    ctx.check(tag + ':valid-burst:at-most-one-datagram', len(trx.data_if.sock.sent) - n0 <= 1, n=len(trx.data_if.sock.sent) - n0)
+
+
 def check_replies(ctx, trx, n0, name):
     sent = trx.ctrl_if.sock.sent[n0:]
     ctx.check(name + ':at-most-one-reply', len(sent) <= 1, n=len(sent))
@@ -196,6 +215,7 @@ def h_trxc_tail(ctx, verb, k, nul, pre):
             trx.ctrl_if.handle_rx()
         check_replies(ctx, trx, n0, 'malformed')
         after_valid_cmd(ctx, trx, 'after')
+        after_valid_burst(ctx, T, trx, 'after')
 
 
 def h_trxc_any(ctx, L):
